@@ -223,6 +223,9 @@ extern "C" void h_parts(int ver, int nv, int nt, int nb, int nparts) {
 	nif.RemoveEmptyPartitions(shape);
 	shape->GetTriangles(shapeTris);
 	check_partitions(nif, shape, ver, shapeTris, true);
+	nif.UpdateSkinPartitions(shape); // rebuild from the cached triangle-to-partition list
+	shape->GetTriangles(shapeTris);
+	check_partitions(nif, shape, ver, shapeTris, true);
 	nif.SetDefaultPartition(shape);
 	nif.UpdateSkinPartitions(shape);
 	shape->GetTriangles(shapeTris);
